@@ -251,6 +251,9 @@ class Verifier:
         # snapshot for old()
         I.old_heap = I.heap.snapshot()
         I.old_locals = dict(sf.locals)
+        if C.loops:
+            from .strmodel import loop_defaults
+            loop_defaults(I, sf)      # after the snapshot: old() must see the values the loop rule binds later
         I.old_ghost = {'g_enc': I.g_enc, 'g_dec': I.g_dec, 'g_nframes': I.g_nframes, 'g_ngoaway': I.g_ngoaway}
         inputs = dict(sf.locals)
         outcome = None
@@ -259,8 +262,10 @@ class Verifier:
                 result = I.call_function(fi, argvals, {})
             else:
                 result = I.call_function(fi, argvals, {})
-            if fi.is_generator:
-                # drain: a generator function's behaviour is its full iteration
+            from .stmts import GenObj
+            if fi.is_generator or (isinstance(result, Ref) and isinstance(I.heap.get(result), GenObj)):
+                # drain: a generator function's behaviour is its full iteration (also when an ordinary function
+                # returns a generator object it created, e.g. utilities._check_path_header -> inner())
                 result = I.heap.alloc(ListObj(list(I.iter_values(result))))
             outcome = ('return', result)
         except PyRaise as pr:
@@ -387,9 +392,12 @@ class Verifier:
             s2.set('random_seed', seed)
             s2.set('timeout', self.ob_timeout_ms)
             s2.add(s.assertions())
-            if s2.check() == z3.unsat:
-                return True
-        return False
+            r = s2.check()
+            if r == z3.unsat:
+                return ('unsat', None)
+            if r == z3.sat:
+                return ('sat', s2.model())      # a complete model of every assertion: a genuine refutation
+        return None
 
     def skolemize(self, I, g):
         sk = []
@@ -452,9 +460,21 @@ class Verifier:
                     I.heap = cur
             except Exception as e:      # pragma: no cover
                 ob.witness = {'error': str(e)}
-        elif self._retry_z3(s):
-            ob.result, ob.backend = 'proved', 'z3'
-            ob.note = 'proved on a retry with another random seed (sequence / quantifier instability of z3)'
+        elif (retry := self._retry_z3(s)) is not None:
+            ob.note = 'decided on a retry with another random seed (quantifier instability of z3)'
+            if retry[0] == 'unsat':
+                ob.result, ob.backend = 'proved', 'z3'
+            else:
+                ob.result, ob.backend = 'refuted', 'z3'
+                try:
+                    cur = I.heap
+                    I.heap = I.old_heap if I.old_heap is not None else cur
+                    try:
+                        ob.witness = {k: I.model_value(retry[1], v) for k, v in inputs.items() if not isinstance(v, (FuncV, ClassV))}
+                    finally:
+                        I.heap = cur
+                except Exception as e:      # pragma: no cover
+                    ob.witness = {'error': str(e)}
         else:
             smt = s.to_smt2()
             res = run_cvc5(smt, self.ob_timeout_ms)
